@@ -215,42 +215,7 @@ class Class:
         return f"<Class {self.qualname}>"
 
 
-class _Canon(ast.NodeTransformer):
-    """Behaviour-preserving canonicalisation applied to every parsed module so
-    that rules see one idiom instead of several: `x = x + c` / `x = x - c`
-    become `x += c` / `x -= c`; `with suppress(E...): body` (contextlib) becomes
-    `try: body except (E...): pass`."""
-
-    def visit_With(self, node):
-        self.generic_visit(node)
-        if len(node.items) == 1 and node.items[0].optional_vars is None:
-            ce = node.items[0].context_expr
-            if isinstance(ce, ast.Call) and not ce.keywords and ce.args and (
-                    (isinstance(ce.func, ast.Name) and ce.func.id == "suppress")
-                    or (isinstance(ce.func, ast.Attribute) and ce.func.attr == "suppress" and isinstance(ce.func.value, ast.Name) and ce.func.value.id == "contextlib")):
-                typ = ce.args[0] if len(ce.args) == 1 else ast.Tuple(elts=list(ce.args), ctx=ast.Load())
-                h = ast.ExceptHandler(type=typ, name=None, body=[ast.copy_location(ast.Pass(), node)])
-                new = ast.Try(body=node.body, handlers=[ast.copy_location(h, node)], orelse=[], finalbody=[])
-                return ast.copy_location(new, node)
-        return node
-
-    def visit_Assign(self, node):
-        self.generic_visit(node)
-        if len(node.targets) == 1 and isinstance(node.value, ast.BinOp) and isinstance(node.value.op, (ast.Add, ast.Sub)) \
-                and isinstance(node.targets[0], (ast.Name, ast.Attribute, ast.Subscript)) \
-                and ast.dump(_as_load(node.targets[0])) == ast.dump(node.value.left):
-            new = ast.AugAssign(target=node.targets[0], op=node.value.op, value=node.value.right)
-            return ast.copy_location(new, node)
-        return node
-
-
-def _as_load(t):
-    import copy
-    t2 = copy.deepcopy(t)
-    for n in ast.walk(t2):
-        if hasattr(n, "ctx"):
-            n.ctx = ast.Load()
-    return t2
+from .canon import canonicalise  # noqa: E402
 
 
 class Module:
@@ -258,7 +223,7 @@ class Module:
         self.name = name
         self.path = path
         self.source = source
-        self.tree = ast.fix_missing_locations(_Canon().visit(ast.parse(source, filename=path)))
+        self.tree = canonicalise(ast.parse(source, filename=path))
         self.digest = hashlib.sha256(source.encode()).hexdigest()[:16]
         self.is_pkg = path.endswith("__init__.py")
         self.body_func = None
